@@ -293,3 +293,14 @@ Proof.
 Qed.
 Theorem fields_all_tokens s : Forall token (fields s).
 Proof. apply fields_aux_all_tokens; constructor. Qed.
+
+(* trailing blanks never change the field list, whatever precedes them *)
+Lemma fields_aux_trailing sp : spaces sp -> forall s cur, fields_aux cur (s ++ sp) = fields_aux cur s.
+Proof.
+  intro Hsp. induction s as [|c r IH]; intro cur.
+  - rewrite app_nil_l. cbn [fields_aux]. revert cur. induction Hsp as [|x xs Hx Hxs IHs]; intro cur; [reflexivity|].
+    cbn [fields_aux]. rewrite Hx. destruct cur as [|y ys]; [exact (IHs [])|]. rewrite (IHs []). reflexivity.
+  - cbn [app fields_aux]. destruct (is_space c); [|apply IH]. destruct cur; rewrite IH; reflexivity.
+Qed.
+Theorem fields_trailing s sp : spaces sp -> fields (s ++ sp) = fields s.
+Proof. intro H; apply fields_aux_trailing; exact H. Qed.
